@@ -347,8 +347,12 @@ def stepMain (line : String) : String :=
                   | none => "err"
                 answer model (impl == ref)
           | _ => "bad-args"
-        else if op == "connreq" then
+        else if op == "connreq" || op == "connreqv" then
           -- a request captured from a real Conn method by the strictly framing fake broker
+          -- (connreqv: first argument = the maximum version the broker advertised for this API)
+          let adv : Option Int := if op == "connreqv" then (rest.head?.bind (·.toInt?)) else none
+          let rest := if op == "connreqv" then rest.drop 1 else rest
+          let verOk : Bool := match adv with | some a => decide (c.ver ≤ a) | none => true
           match rest with
           | cid :: pattern =>
             match ofHex cid, ofHex impl with
@@ -364,7 +368,7 @@ def stepMain (line : String) : String :=
                 let toks := (embed c.m.structs c.ver root v).toTokens
                 let okPat := toks.length == pattern.length &&
                   (toks.zip pattern).all fun (a, b) => b == "*" || a == b
-                answer (toHex reenc) (reenc == raw && okPat && cid' == cidB)
+                answer (toHex reenc) (reenc == raw && okPat && cid' == cidB && verOk)
             | _, _ => "bad-hex"
           | _ => "bad-args"
         else if op == "lens" then
